@@ -7,6 +7,9 @@ that would break a collapsed relation, the clauses it breaks.  The script is rep
 (its step monitor is loaded with exactly the recorded history) through the public Collapse(); afterwards the
 solver's constraints are applied to every point of the domain and the result looked up in TLC's table.
 
+(Measure collapses -- CollapseWeight / CollapsePosition on a flattened product measure -- run through the same
+specification and the same `validate`; their replay and recording are in harness/c11_measure.py.)
+
 code -> spec (`record_run`, `validate`): real solvers run on objectives with flat and tied directions under
 Or(stop, CollapseAt, CollapseAs); the cost and Collapse() are wrapped; parameter values are interned to
 equality-preserving integer ids (exact float equality, -0.0 = 0.0); TLC validates every recorded run against
@@ -64,13 +67,21 @@ def build_termination(mt, conf, stop=None, vals=float, emb=None, mask_fillers=Fa
     return mt.Or(*members)
 
 
+NOMM = {"fmt": "none", "els": []}          # a measure mask of the specification: mask=None
+
+
+def _jl(x):
+    return [_jl(i) for i in x] if isinstance(x, (tuple, list)) else int(x)
+
+
 def members_of(message):
-    """the members of Or(stop, CollapseAt, CollapseAs) a termination message names"""
+    """the members of Or(stop, CollapseAt, CollapseAs, CollapseWeight, CollapsePosition) a termination message names"""
     out = set()
     for part in (message or "").split("; "):
         if not part:
             continue
         out.add("at" if part.startswith("CollapseAt") else "as" if part.startswith("CollapseAs") else
+                "wt" if part.startswith("CollapseWeight") else "ps" if part.startswith("CollapsePosition") else
                 "limit" if part.startswith("EvaluationLimits") else "stop")
     return out
 
@@ -83,9 +94,14 @@ def masks_of(mt, termination, emb=None, mask_fillers=False):
     embedded = emb is not None and not emb.identity
     if embedded and mask_fillers:
         out = {"at": {"none": False, "idx": [], "prs": []}, "as": {"none": False, "idx": [], "prs": []}}
+    out["wt"], out["ps"] = dict(NOMM), dict(NOMM)       # measure conditions (harness/c11_measure.py): [format, elements]
     for doc, kw in mt.state(termination).items():
         k = "at" if doc.startswith("CollapseAt") else "as" if doc.startswith("CollapseAs") else None
         if k is None:
+            km = "wt" if doc.startswith("CollapseWeight") else "ps" if doc.startswith("CollapsePosition") else None
+            if km is not None and kw.get("mask") is not None:
+                from harness import c11_detect as D
+                out[km] = {"fmt": D.fmt_of(kw["mask"]), "els": sorted(_jl(e) for e in D.mask_elems(kw["mask"]))}
             continue
         m = kw.get("mask")
         if m is None:
@@ -330,6 +346,9 @@ def id_conf(conf, intern, n):
     for k in ("initAt", "initAs"):
         c[k] = {"none": conf[k]["none"], "idx": list(conf[k]["idx"]), "prs": [list(p) for p in conf[k].get("prs", [])]}
     c["exact"] = bool((not conf["atOn"] or conf["atTol"][0] == 0) and (not conf["asOn"] or conf["asTol"][0] == 0))
+    # no measure conditions (those runs are recorded by harness/c11_measure.py)
+    c.update({"npts": [0, 0], "wtOn": False, "psOn": False, "wtTol": [0, 1], "wtG": 1, "psTol": [0, 1], "psG": 1,
+              "initWt": dict(NOMM), "initPs": dict(NOMM)})
     return c
 
 
@@ -376,7 +395,7 @@ def record_run(mt, spec):
     def cost(x):
         state["calls"] += 1
         if state["collapsed"]:
-            events.append({"ev": "CostCall", "x": intern.point(back(x))})
+            events.append({"ev": "CostCall", "x": intern.point(back(x)), "mass": []})
         return f(x)
 
     def log_stop(message):
@@ -407,7 +426,7 @@ def record_run(mt, spec):
                     vals.append(intern(t["v"][0]))
                 else:
                     vals.append(intern(t["v"][i]))
-            events.append({"ev": "Collapse", "ra": sorted(ra), "rs": sorted(list(q) for q in rs), "vals": vals,
+            events.append({"ev": "Collapse", "ra": sorted(ra), "rs": sorted(list(q) for q in rs), "vals": vals, "rw": [], "rp": [],
                            "before": before, "after": after, "calls": state["calls"], "gens": s.generations})
             state["collapsed"] = True
             state["ncol"] += 1
